@@ -97,6 +97,9 @@ func Generate(profile string, seed uint64, tier string) (*Scenario, error) {
 	case "C12c":
 		sc.Property = "C12"
 		genC12c(g, sc, tier)
+	case "C15":
+		sc.Property = "C15"
+		genC15(g, sc, tier)
 	case "C14":
 		sc.Property = "C14"
 		genC14(g, sc, tier, seed)
@@ -423,6 +426,8 @@ func Execute(sc *Scenario) *Verdict {
 		return RunSecScenario(sc)
 	case "C14":
 		return RunRestartScenario(sc)
+	case "C15":
+		return RunC15Scenario(sc)
 	case "C08", "C10", "C17", "C18":
 		return RunJobScenario(sc)
 	case "C05", "C02c", "C12c", "C13c", "C19c":
@@ -1400,4 +1405,76 @@ func genC14(g *G, sc *Scenario, tier string, seed uint64) {
 	}
 	sc.Ops = append(append(append([]Op{}, ops[:pos]...), Op{K: "restart"}), ops[pos:]...)
 	sc.Ops = append(sc.Ops, Op{K: "restart"})
+}
+
+// genC15: entity collections of every JSON shape are POSTed to hub A, pulled by hub B and pushed
+// to hub B over the simulated transport (arbitrary chunking; truncation, reader errors, replaced
+// tokens as faults); malformed payloads are POSTed to hub B.
+func genC15(g *G, sc *Scenario, tier string) {
+	c := g.baseStoreCfg(tier)
+	c.Datasets = []string{"src"}
+	c.NoPlainObjects = true
+	c.PNested = 0.25
+	c.PTxn, c.PRestart = 0, 0
+	c.MaxBatch = g.Range(1, 5)
+	sc.Knobs["jobBatch"] = int64(g.Range(1, 4))
+	sc.Knobs["web.batchSize"] = int64(g.PickInt([]int{1, 2, 10}))
+	m := NewModel()
+	m.Create("src")
+	mm := NewModel()
+	mm.Create("mal")
+	replaces := [][2]string{
+		{`"deleted":true`, `"deleted":"true"`}, {`"refs":{`, `"refs":{"zz:bad":5,`}, {`"id":"ns`, `"id":7,"x":"ns`}, {`"props":{`, `"props":[`},
+		{`"recorded":`, `"recorded":"x`}, {`"namespaces":{`, `"namespaces":[{`}, {`{"id":"@continuation"`, `{"id":12`},
+	}
+	for rd := g.Range(1, 3); rd > 0; rd-- {
+		for k := g.Range(1, 3); k > 0; k-- {
+			ents := g.batch(c, m, "src")
+			m.Batch("src", ents)
+			sc.Ops = append(sc.Ops, Op{K: "payload", Ents: ents, N: g.Intn(6)})
+		}
+		for _, kind := range []string{"pull", "push"} {
+			if !g.P(0.8) {
+				continue
+			}
+			op := Op{K: kind}
+			var faults []any
+			if g.P(0.6) {
+				faults = append(faults, map[string]any{"kind": "chunk", "chunk": g.PickInt([]int{1, 2, 3, 7, 64})})
+			}
+			if kind == "pull" && g.P(0.45) {
+				switch g.Intn(3) {
+				case 0:
+					faults = append(faults, map[string]any{"kind": "truncate", "at": g.Range(1, 600), "nth": 1})
+				case 1:
+					faults = append(faults, map[string]any{"kind": "readerr", "at": g.Range(0, 600), "nth": 1})
+				default:
+					rp := replaces[g.Intn(len(replaces))]
+					faults = append(faults, map[string]any{"kind": "replace", "from": rp[0], "to": rp[1], "nth": 1})
+				}
+			}
+			if kind == "push" && g.P(0.2) {
+				faults = append(faults, map[string]any{"kind": g.Pick([]string{"drop-response", "dup"}), "nth": 1})
+			}
+			if len(faults) > 0 {
+				op.M = map[string]any{"faults": faults}
+			}
+			sc.Ops = append(sc.Ops, op)
+			if len(faults) > 0 {
+				sc.Ops = append(sc.Ops, Op{K: kind}) // a clean transfer afterwards catches up
+			}
+		}
+		for k := g.Range(0, 2); k > 0; k-- {
+			c.Datasets = []string{"mal"}
+			ents := g.batch(c, mm, "mal")
+			c.Datasets = []string{"src"}
+			spec := map[string]any{}
+			if g.P(0.4) {
+				spec["kind"], spec["at"] = "truncate", g.Range(1, 2000)
+			} else {
+				spec["kind"], spec["idx"] = g.Pick(c15TokenKinds), g.Intn(8)
+			}
+			sc.Ops = append(sc.Ops, Op{K: "malformed", Ents: ents, N: g.Intn(6), M: spec})
+		}
+	}
 }
